@@ -244,3 +244,35 @@ Definition same_fista (a b : res (@fstate Q * list (Ext Q) * Ext Q * nat)) : boo
 Definition frag_fista (r : res (@fstate Q * list (Ext Q) * Ext Q * nat) * res (@fstate Q * list (Ext Q) * Ext Q * nat) * res (@fstate Q * list (Ext Q) * Ext Q * nat))
     (o : obs_run) : bool :=
   let '(a, b, c) := r in negb (same_fista a b && same_fista a c).
+
+(* ---------------- ProxNewton END TO END: the skeleton over the REGENERATED kernels (Gen/KernPN.v, Gen/KernCD.v) and the
+   regenerated Quadratic datafit / separable penalty; only np.argpartition is replaced (same deterministic rule on both sides) ---- *)
+Require Import SK.Gen.KernCD SK.Gen.KernPN.
+Require Import SK.Skel.ProxNewtonKernels.
+(* the SAME kernel record the theorems of Skel/ProxNewtonGen.v are about, on Q *)
+Definition pn_e2e_kernels (N : Num Q) (X : list (list Q)) (y : list Q) (fi fixp : bool)
+    (score : list Q -> list Q -> list Z -> res (list (Ext Q))) (prox : Q -> Q -> Z -> res Q)
+    (value : list Q -> res (Ext Q)) (gsupp : list Q -> res (list bool)) : @pn_kernels Q :=
+  @pn_gen_kernels Q N (@Quadratic_raw_grad Q N) (@Quadratic_raw_hessian Q N) (fun w Xw => @Quadratic_value Q N y w Xw)
+                  prox value score gsupp mk_topk X y fi fixp.
+
+Definition pn_case_N (N : Num Q) (X : list (list Q)) (y : list Q) (max_iter max_pn_iter : nat) (p0 : Z) (tol : Q) (fi fixp : bool)
+    (score : list Q -> list Q -> list Z -> res (list (Ext Q))) (prox : Q -> Q -> Z -> res Q)
+    (value : list Q -> res (Ext Q)) (gsupp : list Q -> res (list bool)) (w_init Xw_init : option (list Q)) : res (@gout Q (@pn_state Q)) :=
+  @pn_solve Q N {| pn_max_iter := max_iter; pn_max_pn_iter := max_pn_iter; pn_p0 := p0; pn_tol := tol; pn_fixpoint := fixp;
+                   pn_fit_intercept := fi; pn_p := length X; pn_n := length y |}
+            (pn_e2e_kernels N X y fi fixp score prox value gsupp) w_init Xw_init.
+Definition pn_case := pn_case_N QNum.
+Definition chk_pn_e2e (r : res (@gout Q (@pn_state Q))) (o : obs_run) : bool :=
+  match r with
+  | Err _ => or_err o
+  | Ok g => negb (or_err o) && all2 qclose (pn_w (g_s g)) (or_w o) && all2 ext_eqq (g_obj g) (or_obj o) && ext_eqq (g_stop g) (or_stop o)
+  end.
+Definition same_pn (a b : res (@gout Q (@pn_state Q))) : bool :=
+  match a, b with
+  | Err _, Err _ => true
+  | Ok g, Ok h => all2 Qeqb (pn_w (g_s g)) (pn_w (g_s h)) && all2 ext_same (g_obj g) (g_obj h) && ext_same (g_stop g) (g_stop h)
+  | _, _ => false
+  end.
+Definition frag_pn (r : res (@gout Q (@pn_state Q)) * res (@gout Q (@pn_state Q)) * res (@gout Q (@pn_state Q))) (o : obs_run) : bool :=
+  let '(a, b, c) := r in negb (same_pn a b && same_pn a c).
